@@ -34,11 +34,24 @@ def path(fn, n, resolve_refs=True, _depth=0):
         k = d['kind']
         if k in ('var', 'parm'):
             vid = d['id']
+            if k == 'parm' and vid in fn.self_params:
+                return ('this',)      # explicit-object parameter of a collapsed forwarder (facts.TU._collapse_forwarders)
+            if k == 'parm' and vid in fn.param_subst:
+                of, an = fn.param_subst[vid]      # reference parameter of a collapsed forwarder bound to a member of the object
+                return path(of, an, resolve_refs, _depth + 1)
             if resolve_refs and k == 'var':
                 vd = fn.var_decls().get(vid)
                 t = fn.tu.type(d['t'])
                 if vd and t and t['ref'] and vd.get('init'):
                     return path(fn, vd['init'], resolve_refs, _depth + 1)
+            if resolve_refs and k == 'var':
+                # `T * const self = this;` (possibly captured by a lambda): another name of this
+                t = fn.tu.type(d['t'])
+                if t and t.get('const') and t.get('ptr') is not None and not t.get('ref'):
+                    fv = fn.var_decl_any(vid)
+                    if fv and fv[1].get('init') and fv[0].nodes[fv[0].strip_all_casts(fv[1]['init'])]['cls'] == 'CXXThisExpr' \
+                            and not fv[0].nodes[fv[0].strip_all_casts(fv[1]['init'])].get('was_self'):
+                        return ('this',)
             return ('v:%s#%d' % (d['name'], vid),)
         if k == 'enumc':
             return ('enum:%s' % d['name'],)
